@@ -57,6 +57,7 @@ HOSTILE = [
     ("dollar-price", "$5 is the price. Q8end", None),
     ("dollar-var-first", "$last_user_message Q8end", None),
     ("dollar-var-quoted", '  "$user_message Q8end"', None),
+    ("blank-then-prose", "\nI'm sorry, I can't help with that.\n\n", None),
     ("shaped-steps-user-only", "user ask something else", None),
     ("shaped-intent-then-steps", 'ask shaped\nbot inform shaped three\n  "Q7{{ 7*7 }}Q8"', "Q749Q8"),
 ]
